@@ -438,6 +438,24 @@ func Graph(r *mon.Rng, maxTypes int) *model.Schema {
 			g.s.Root.Rules = append(rs, model.RAllOf(tname(mon.Pick(r, objs))))
 		}
 	}
+	// a rule written with the value false next to a type reference says what leaving it out says
+	// (null stays outside the union, the key stays required)
+	inert := func(n *model.Node) {
+		n.Walk(func(x *model.Node) {
+			if x.Kind != model.KRef || !r.Chance(1, 6) {
+				return
+			}
+			if x.Rule("nullable") == nil {
+				x.Rules = append(x.Rules, model.RBool("nullable", false))
+			}
+		})
+	}
+	inert(g.s.Root)
+	for _, t := range g.s.Types {
+		if t.Root != nil && t.Root.Kind != model.KRef {
+			inert(t.Root)
+		}
+	}
 	return g.s
 }
 
